@@ -508,6 +508,11 @@ def history_phase(ctx, res, groups=None):
         for r in res:
             if r is None or gs.degenerate(r["m"]):
                 continue
+            # models with a cycle that are not well-founded are inside the known finding K-WG-cycles: their verdict
+            # depends on Go's map order from one Build to the next, whatever the builder object — not a history effect
+            if gs.cycle_info(r["m"])["has_cycle"] and not gs.well_founded(r["m"]):
+                ctx.count("history_skipped_K-WG-cycles")
+                continue
             allr = [a for (_, a, _) in r["ordered"]] + r["builds"] + r.get("variant", [])
             if allr and all(gg.same_verdict(a, allr[0]) for a in allr):
                 det.append(r["m"])
